@@ -53,7 +53,7 @@ def replay(c):
 def run(rep, tier):
     mods = struct_check.corpus()
     if tier == "quick":
-        mods = [m for m in mods if m[0] in c01.QUICK_MODULES[:6] + ["testdata/alignments.emb"] or not m[0].startswith("testdata/")]
+        mods = [m for m in mods if m[0] in c01.QUICK_MODULES[:6] + ["testdata/alignments.emb"] or struct_check.in_quick_corpus(m[0])]
     opts = {"nmax": 16 if tier == "quick" else 40, "aligns": (4,) if tier == "quick" else (4, 8)}
     if tier == "quick":
         # aligned-view variants only where nesting/offsets make alignment bookkeeping interesting
